@@ -28,7 +28,7 @@ RULE = (
 )
 ASSUMPTIONS = ["aliasing of one operand tensor under several pointer keys in a derived circuit's dictionary is not counted as a duplicate",
                "fresh instances are compiled from the same symbolic objects with a new TorchCompiler"]
-BOUNDS = {"quick": {"depth": 3, "bases": 6}, "thorough": {"depth": 4, "bases": 12}}
+BOUNDS = {"quick": {"depth": 3, "bases": 6}, "thorough": {"depth": 5, "bases": 12}}
 CHUNK = 1
 
 EVENTS = ["S", "U", "R", "L", "LD"]
@@ -42,7 +42,7 @@ def cases(tier, seed):
             yield {"base": bi, "semiring": semiring, "fold": fold, "optimize": optimize, "depth": BOUNDS[tier]["depth"]}
     # partially frozen models: every second parameterised layer holds NON-learnable tensors with a random initialiser (their
     # fresh values differ between two compilations, so only the state dictionary can carry them over)
-    for bi in range(min(4, BOUNDS[tier]["bases"])):
+    for bi in range(min(4 if tier == "quick" else 8, BOUNDS[tier]["bases"])):
         for frozen in (("even", "odd") if tier == "thorough" else ("even",) if bi % 2 == 0 else ("odd",)):
             for semiring, fold, optimize in [("sum-product", True, True), ("sum-product", False, False)]:
                 yield {"base": bi, "semiring": semiring, "fold": fold, "optimize": optimize, "depth": BOUNDS[tier]["depth"] - 1, "frozen": frozen}
